@@ -154,17 +154,17 @@ fn k2_quad<S: Fl>(q: &QuadraticBezierSegment<S>, _tol: S) -> bool {
     lu > 0.0 && lv > 0.0 && (ux * vx + uy * vy) / (lu * lv) > 0.906
 }
 
-fn tolerance_check<S: Fl>(cx: &mut Cx, label: &str, tol: f64, dev: (f64, f64), k2: bool) {
-    tolerance_check_c::<S>(cx, label, tol, dev, if k2 { Some("K2") } else { None })
+fn tolerance_check<S: Fl>(cx: &mut Cx, label: &str, tol: f64, dev: (f64, f64), k2: bool, k6: f64) {
+    tolerance_check_c::<S>(cx, label, tol, dev, if k2 { Some("K2") } else { None }, k6)
 }
 
-fn tolerance_check_c<S: Fl>(cx: &mut Cx, label: &str, tol: f64, dev: (f64, f64), known: Option<&str>) {
+fn tolerance_check_c<S: Fl>(cx: &mut Cx, label: &str, tol: f64, dev: (f64, f64), known: Option<&str>, k6: f64) {
     let d = dev.0.max(dev.1);
     cx.st.inc(if d <= tol { "dev_within_tol" } else if d <= 1.5 * tol { "dev_within_1_5_tol" } else { "dev_beyond_1_5_tol" });
     if d > tol * 1.0001 + 1e-9 {
         let class = if known.is_some() {
             known
-        } else if d <= 1.5 * tol + 1e-9 {
+        } else if d <= k6 * tol + 1e-9 {
             Some("K6")
         } else {
             None
@@ -177,6 +177,24 @@ fn tolerance_check_c<S: Fl>(cx: &mut Cx, label: &str, tol: f64, dev: (f64, f64),
 /// uses (tol * 1.0001 + 1e-9) with a further 1e-4 relative margin, as an exact rational
 fn dev_tol2(tol: f64) -> String {
     let t = tol * 1.0002 + 2e-9;
+    gq64(t * t)
+}
+
+/// the budget of the known finding K6 as a factor of the tolerance: 1.5, or 2 when the tolerance exceeds a tenth of
+/// the extent of the control polygon (Levien's step count degrades when the tolerance is large against the curve)
+fn k6_factor(tol: f64, pts: &[(f64, f64)]) -> f64 {
+    let (mut lx, mut hx, mut ly, mut hy) = (f64::MAX, f64::MIN, f64::MAX, f64::MIN);
+    for p in pts {
+        lx = lx.min(p.0);
+        hx = hx.max(p.0);
+        ly = ly.min(p.1);
+        hy = hy.max(p.1);
+    }
+    if tol > 0.1 * (hx - lx).max(hy - ly) { 2.0 } else { 1.5 }
+}
+
+fn dev_loose2(tol: f64, factor: f64) -> String {
+    let t = tol * factor + 2e-9;
     gq64(t * t)
 }
 
@@ -237,7 +255,8 @@ fn quad_case<S: Fl>(cx: &mut Cx, q: QuadraticBezierSegment<S>, tol: S) {
     let poly: Vec<(f64, f64)> = std::iter::once((q.from.x.f(), q.from.y.f())).chain(pieces.iter().map(|p| (p.1.x.f(), p.1.y.f()))).collect();
     let q64 = QuadraticBezierSegment { from: point(q.from.x.f(), q.from.y.f()), ctrl: point(q.ctrl.x.f(), q.ctrl.y.f()), to: point(q.to.x.f(), q.to.y.f()) };
     let dev = deviation(&|t| { let p = q64.sample(t); (p.x, p.y) }, &poly);
-    tolerance_check::<S>(cx, &label, tol.f(), dev, k2_quad(&q, tol));
+    let k6 = k6_factor(tol.f(), &[(q.from.x.f(), q.from.y.f()), (q.ctrl.x.f(), q.ctrl.y.f()), (q.to.x.f(), q.to.y.f())]);
+    tolerance_check::<S>(cx, &label, tol.f(), dev, k2_quad(&q, tol), k6);
     cx.st.sample(format!("{} -> {} segments", label, pieces.len()));
     writeln!(cx.idx, "{}\t{}", cx.id, label).ok();
     if dev_eligible(cx, tol.f(), dev, &pieces) {
@@ -245,9 +264,10 @@ fn quad_case<S: Fl>(cx: &mut Cx, q: QuadraticBezierSegment<S>, tol: S) {
         cx.st.inc("verified_deviation_cases");
         cx.st.inc("verified_deviation_quadratic");
         cx.wd.push(format!(
-            "(QD {} {} {} (mkQuad {} {} {}) {} {})",
+            "(QD {} {} {} {} (mkQuad {} {} {}) {} {})",
             cx.id,
             dev_tol2(tol.f()),
+            dev_loose2(tol.f(), k6),
             dev_tol2(tol.f()),
             gpt(q.from),
             gpt(q.ctrl),
@@ -314,19 +334,21 @@ fn cubic_case<S: Fl>(cx: &mut Cx, c: CubicBezierSegment<S>, tol: S) {
     };
     let dev = deviation(&|t| { let p = c64.sample(t); (p.x, p.y) }, &poly);
     let k2 = quads.iter().any(|(_, _, _, q)| k2_quad(q, tol * S::value(0.8)));
-    tolerance_check::<S>(cx, &label, tol.f(), dev, k2);
+    let k6 = k6_factor(tol.f(), &[(c.from.x.f(), c.from.y.f()), (c.ctrl1.x.f(), c.ctrl1.y.f()), (c.ctrl2.x.f(), c.ctrl2.y.f()), (c.to.x.f(), c.to.y.f())]);
+    tolerance_check::<S>(cx, &label, tol.f(), dev, k2, k6);
     let poly_it: Vec<(f64, f64)> = std::iter::once((c.from.x.f(), c.from.y.f())).chain(pts.iter().map(|p| (p.x.f(), p.y.f()))).collect();
     let dev_it = deviation(&|t| { let p = c64.sample(t); (p.x, p.y) }, &poly_it);
-    tolerance_check::<S>(cx, &format!("{} [flattened() iterator]", label), tol.f(), dev_it, k2);
+    tolerance_check::<S>(cx, &format!("{} [flattened() iterator]", label), tol.f(), dev_it, k2, k6);
     writeln!(cx.idx, "{}\t{}", cx.id, label).ok();
     if dev_eligible(cx, tol.f(), dev, &pieces) {
         cx.dev_budget -= 1;
         cx.st.inc("verified_deviation_cases");
         cx.st.inc("verified_deviation_cubic");
         cx.wd.push(format!(
-            "(CD {} {} {} (mkCubic {} {} {} {}) {} {})",
+            "(CD {} {} {} {} (mkCubic {} {} {} {}) {} {})",
             cx.id,
             dev_tol2(tol.f()),
+            dev_loose2(tol.f(), k6),
             dev_tol2(tol.f()),
             gpt(c.from),
             gpt(c.ctrl1),
@@ -417,7 +439,7 @@ fn arc_case(cx: &mut Cx, a: Arc<f64>, tol: f64) {
     // K10: the arc step assumes a locally constant radius and a tolerance small against the radii
     let (rmin, rmax) = (a.radii.x.abs().min(a.radii.y.abs()), a.radii.x.abs().max(a.radii.y.abs()));
     let k10 = rmin < 5.0 * tol || rmax > 2.5 * rmin;
-    tolerance_check_c::<f64>(cx, &label, tol, dev, if k10 { Some("K10") } else { None });
+    tolerance_check_c::<f64>(cx, &label, tol, dev, if k10 { Some("K10") } else { None }, 1.5);
 }
 
 fn gen_pt<S: Fl>(r: &mut Rng, lattice: bool) -> Point<S> {
